@@ -47,6 +47,24 @@ def gen(rng: np.random.Generator, n: int, far=False):
     piv = rng.uniform(-1, 1, (n, 3)) * scale[:, None]
     scale2 = rng.choice([0.1, 1.0, 10.0, 100.0] + ([300.0] if far else []), n)
     new = piv * rng.choice([0.0, 1.0], n)[:, None] + rng.uniform(-1, 1, (n, 3)) * scale2[:, None]
+    # structured new pivots (measure zero for the uniform draw): on the helix's own closest-approach point, and elsewhere on the
+    # line through the circle centre and the reference point (the turning angle is then exactly 0 while dr changes)
+    sp = rng.integers(0, 25, n)
+    ux, uy = np.cos(phi0), np.sin(phi0)
+    on_pos = sp == 0
+    new[:, 0] = np.where(on_pos, piv[:, 0] + dr * ux, new[:, 0])
+    new[:, 1] = np.where(on_pos, piv[:, 1] + dr * uy, new[:, 1])
+    new[:, 2] = np.where(on_pos & (rng.random(n) < 0.5), piv[:, 2] + dz, new[:, 2])
+    on_line = sp == 1
+    t = rng.uniform(-1, 1, n) * np.minimum(np.abs(ALPHA / kappa) * 0.9, rng.choice([0.1, 1.0, 10.0], n))
+    new[:, 0] = np.where(on_line, piv[:, 0] + t * ux, new[:, 0])
+    new[:, 1] = np.where(on_line, piv[:, 1] + t * uy, new[:, 1])
+    # moves along z only (x and y of the new pivot bit-identical to the old one) and moves to the very same pivot
+    z_only = sp == 2
+    new[:, 0] = np.where(z_only, piv[:, 0], new[:, 0])
+    new[:, 1] = np.where(z_only, piv[:, 1], new[:, 1])
+    same = sp == 3
+    new = np.where(same[:, None], piv, new)
     return dict(dr=dr, phi0=phi0, kappa=kappa, dz=dz, tanl=tanl, piv=piv, new=new)
 
 
